@@ -40,8 +40,10 @@ def generate(rng, tier, index):
     for reqs in scn['conns']:
         for r in reqs:
             if rng.random() < 0.08 and r.get('tag') == 'valid':
-                r['pdu'] = rng.choice(IDENT).hex()
-                r['tag'] = 'opaque'
+                cand = rng.choice(IDENT).hex()
+                if not any(x['pdu'] == cand and x['u'] == r['u'] for rr in scn['conns'] for x in rr):
+                    r['pdu'] = cand
+                    r['tag'] = 'opaque'
     scn['experiment'] = rng.choice(['serialised', 'serialised', 'concurrent', 'isolation'] if fam == 'stream'
                                    else ['serialised', 'serialised', 'concurrent'])
     if scn['experiment'] in ('serialised', 'isolation'):
